@@ -1,7 +1,197 @@
-From Coq Require Import ZArith List Bool Lia.
+(* C11 — flattening keeps the operations: the statements for build programs (plain and unrolled), the model-scope
+   characterisation with the F10 witness, and examples.  The lemmas are in Core/FlattenProofs.v and Core/FlattenIdem.v. *)
+From Coq Require Import ZArith List Bool Lia Permutation.
 Import ListNotations.
-From QCE Require Import Base.Prelude Core.Model.
+From QCE Require Import Base.Prelude Core.Model Core.Run Core.BfsProofs Core.BfsWf Core.TimesWf Core.FlattenProofs Core.FlattenIdem Core.FlattenScope.
+From Gen Require Import Ident Classes.
 Open Scope Z_scope.
 
 Lemma flatten_empty env : flatten env [] = Some [].
 Proof. reflexivity. Qed.
+
+(* the graph a build program denotes: as built, or after apply_modifiers() *)
+Definition prog_graph (env : denv) (p : list cmd) (unrolled : bool) : list node :=
+  if unrolled then apply_modifiers env 1 (run_prog env p) else run_prog env p.
+
+Lemma prog_graph_wf_op env p u : wf_op (OComp 1 (prog_graph env p u)).
+Proof.
+  destruct u; simpl; [apply TimesWf.apply_modifiers_wf_op|]; apply run_prog_wf_op.
+Qed.
+
+(* ------------------------------------------------------------------ the decomposed listing of a program *)
+Theorem prog_glisting env p u :
+  map ge_leaf (glisting (prog_graph env p u)) = map e_leaf (listing env (prog_graph env p u)) /\
+  NoDup (map ge_path (glisting (prog_graph env p u))).
+Proof. split; [apply glisting_leaves | apply (glisting_paths_NoDup 1); apply prog_graph_wf_op]. Qed.
+
+(* ------------------------------------------------------------------ 2./3. what the flat graph is *)
+Theorem prog_flatten_no_subcircuit env p u f : flatten env (prog_graph env p u) = Some f ->
+  Forall (fun n => is_comp (n_op n) = false) f /\
+  map n_op f = map OLeaf (map e_leaf (listing env (prog_graph env p u))) /\
+  length f = length (listing env (prog_graph env p u)).
+Proof.
+  intros H. split; [exact (flatten_no_comp _ _ _ H)|]. split; [exact (flatten_ops_listing _ _ _ H)|].
+  rewrite (flatten_length _ _ _ H). apply glisting_length.
+Qed.
+
+Theorem prog_flatten_wf env p u f : flatten env (prog_graph env p u) = Some f -> wf_nodes f /\ built env f /\ wf_op (OComp 1 f).
+Proof. intros H. split; [exact (flatten_wf _ _ _ H)|]. split; [exact (flatten_built _ _ _ H) | exact (flatten_wf_op _ 1 _ _ H)]. Qed.
+
+(* ------------------------------------------------------------------ 4. the multiset of leaves *)
+Theorem prog_flatten_multiset env p u f : flatten env (prog_graph env p u) = Some f -> fully_listed f ->
+  Permutation (map e_leaf (listing env f)) (map e_leaf (listing env (prog_graph env p u))).
+Proof. apply flatten_multiset. Qed.
+
+Theorem prog_flatten_multiset_bound env p u f : flatten env (prog_graph env p u) = Some f ->
+  Z.of_nat (length (listing env (prog_graph env p u))) <= 4999 ->
+  Permutation (map e_leaf (listing env f)) (map e_leaf (listing env (prog_graph env p u))).
+Proof. apply flatten_multiset_bound. Qed.
+
+(* ------------------------------------------------------------------ 5. flattening again *)
+Theorem prog_flatten_again env p u f : flatten env (prog_graph env p u) = Some f -> fully_listed f ->
+  exists f', flatten env f = Some f' /\ listing env f' = listing env f /\ flatten env f' = Some f'.
+Proof.
+  intros H F. apply (flatten_idem_fixpoint env f (map e_leaf (listing env (prog_graph env p u)))).
+  - exact (flatten_ops_listing _ _ _ H).
+  - exact (flatten_wf _ _ _ H).
+  - exact (flatten_built _ _ _ H).
+  - exact F.
+Qed.
+
+Theorem prog_flatten_again_bound env p u f : flatten env (prog_graph env p u) = Some f ->
+  Z.of_nat (length (listing env (prog_graph env p u))) <= 4999 ->
+  exists f', flatten env f = Some f' /\ listing env f' = listing env f /\ flatten env f' = Some f'.
+Proof.
+  intros H B. apply (prog_flatten_again env p u f H). apply fully_listed_length; [exact (proj1 (flatten_wf _ _ _ H))|].
+  rewrite (flatten_length _ _ _ H), (glisting_length env). exact B.
+Qed.
+
+(* ------------------------------------------------------------------ 6. the scope of the model *)
+Lemma prog_graph_mb env p u : mb_op (OComp 1 (prog_graph env p u)).
+Proof. destruct u; simpl; [apply apply_modifiers_mb|]; apply run_prog_mb. Qed.
+
+(* no answer exactly when, after the hand-off, some listed leaf holds a multi-link with a member t that is a leaf listed
+   earlier and a member t' that is no listed leaf at all: a sub-circuit (or an operation cut off by the depth limit) *)
+Theorem prog_flatten_scope env p u : let ns := prog_graph env p u in
+  flatten env ns = None <->
+  exists done e rest tgs t t',
+    glisting ns = done ++ e :: rest /\ ge_link e = GMulti tgs /\
+    In t tgs /\ In t (map ge_path done) /\ In t' tgs /\ ~ In t' (map ge_path (glisting ns)).
+Proof.
+  intros ns. split; [apply (flatten_none_built env 1); [apply prog_graph_wf_op | apply prog_graph_mb]|].
+  intros (done & e & rest & tgs & t & t' & G & L & H1 & H2 & H3 & H4).
+  apply (flatten_none_converse env ns _ _ _ _ _ _ G L H1 H2 H3). intros H. apply H4. rewrite G, map_app. apply in_or_app. left. exact H.
+Qed.
+
+(* for arbitrary nested graphs: the missing member is not listed earlier *)
+Theorem flatten_scope_any env ns :
+  flatten env ns = None <->
+  exists done e rest tgs t t',
+    glisting ns = done ++ e :: rest /\ ge_link e = GMulti tgs /\
+    In t tgs /\ In t (map ge_path done) /\ In t' tgs /\ ~ In t' (map ge_path done).
+Proof.
+  split; [apply flatten_none_characterisation|].
+  intros (done & e & rest & tgs & t & t' & G & L & H1 & H2 & H3 & H4). exact (flatten_none_converse env ns _ _ _ _ _ _ G L H1 H2 H3 H4).
+Qed.
+
+(* evaluation helpers: conversions are done on goals (vm casts), never in hypotheses *)
+Definition is_some {A} (o : option A) : bool := match o with Some _ => true | None => false end.
+Lemma is_some_inv {A} (o : option A) : is_some o = true -> exists x, o = Some x.
+Proof. destruct o as [x|]; [exists x; reflexivity | discriminate]. Qed.
+
+Lemma not_in_paths (t : path) (l : list path) : existsb (path_eqb t) l = false -> ~ In t l.
+Proof.
+  intros H Hin. assert (existsb (path_eqb t) l = true); [|congruence].
+  apply existsb_exists. exists t. split; [exact Hin | apply path_eqb_refl].
+Qed.
+
+(* the known-finding witness F10: block x3 [Measure q0; Wait q0 FLUX; block[block[Barrier q0]; CoordinateShift q0]], unrolled *)
+Definition f10_env : denv := mk_env 40 40 4 2 [].
+Definition f10_prog : list cmd :=
+  [CSub 3 [CAdd (mk_leaf 0 C_DispersiveMeasure [0] QubitChannel_ALL (DGlobal GReadout) (Some (0, 2))) None;
+           CAdd (mk_leaf 1 C_Wait [0] QubitChannel_FLUX (DFixed 8) None) None;
+           CSub 1 [CSub 1 [CAdd (mk_leaf 2 C_Barrier [0] QubitChannel_ALL (DFixed 4) None) None];
+                   CAdd (mk_leaf 3 C_CoordinateShiftOperation [0] QubitChannel_ALL (DFixed 0) None) None]]].
+
+(* after the hand-off the first operation of the second copy (path [0;3]) holds a multi-link over the first copy's
+   measurement [0;0] (a leaf listed earlier) and the first copy's inner block [0;2] (a sub-circuit: no listed leaf) *)
+Theorem f10_outside_model :
+  let ns := prog_graph f10_env f10_prog true in
+  wf_op (OComp 1 ns) /\ flatten f10_env ns = None /\
+  exists done e rest, glisting ns = done ++ e :: rest /\ ge_path e = [0; 3]%nat /\
+    ge_link e = GMulti [[0; 0]; [0; 2]]%nat /\ In [0; 0]%nat (map ge_path done) /\
+    ~ In [0; 2]%nat (map ge_path (glisting ns)).
+Proof.
+  intros ns. split; [apply prog_graph_wf_op|]. split; [vm_compute; reflexivity|].
+  exists (firstn 4 (glisting ns)), (nth 4 (glisting ns) ([], dleaf, GNone)), (skipn 5 (glisting ns)).
+  split; [vm_compute; reflexivity|]. split; [vm_compute; reflexivity|]. split; [vm_compute; reflexivity|].
+  split; [vm_compute; left; reflexivity|].
+  apply not_in_paths. vm_compute. reflexivity.
+Qed.
+
+Corollary flatten_refuted_F10 : exists env p, let ns := prog_graph env p true in wf_op (OComp 1 ns) /\ flatten env ns = None.
+Proof. exists f10_env, f10_prog. intros ns. split; [apply prog_graph_wf_op | vm_compute; reflexivity]. Qed.
+
+(* ------------------------------------------------------------------ examples: the hypotheses are satisfiable *)
+Definition ex_env : denv := mk_env 40 4 8 2 [].
+Definition ex_rx (lab q : Z) := mk_leaf lab C_Rx180 [q] QubitChannel_ALL (DGlobal GMicrowave) None.
+Definition ex_wait (lab q d : Z) := mk_leaf lab C_Wait [q] QubitChannel_ALL (DFixed d) None.
+Definition ex_meas (lab q t : Z) := mk_leaf lab C_DispersiveMeasure [q] QubitChannel_ALL (DGlobal GReadout) (Some (q, t)).
+Definition ex_cz (lab a b : Z) := mk_leaf lab C_CPhase [a; b] QubitChannel_ALL (DGlobal GFlux) None.
+(* Rx q0; block[Rx q0; block x3[Rx q0; Wait q1; CPhase q0 q1; Measure q1]; Rx q1]; Measure q0 *)
+Definition ex_prog : list cmd :=
+  [CAdd (ex_rx 0 0) None;
+   CSub 1 [CAdd (ex_rx 1 0) None;
+           CSub 3 [CAdd (ex_rx 2 0) None; CAdd (ex_wait 3 1 24) None; CAdd (ex_cz 4 0 1) None; CAdd (ex_meas 5 1 1) None];
+           CAdd (ex_rx 6 1) None];
+   CAdd (ex_meas 7 0 2) None].
+
+(* nested, repeated, unrolled: flatten answers, 16 flat nodes, the listing keeps its order of operations, the flat graph is
+   within the depth limit, and a second flatten() reports the same listing *)
+Example ex_unrolled_flatten :
+  let ns := prog_graph ex_env ex_prog true in
+  exists f, flatten ex_env ns = Some f /\ length f = 16%nat /\ fully_listed f /\
+            map e_leaf (listing ex_env f) = map e_leaf (listing ex_env ns) /\
+            exists f', flatten ex_env f = Some f' /\ listing ex_env f' = listing ex_env f.
+Proof.
+  intros ns. assert (S : is_some (flatten ex_env ns) = true) by (vm_compute; reflexivity).
+  apply is_some_inv in S as (f & E). exists f. split; [exact E|].
+  assert (L : length f = 16%nat) by (rewrite (flatten_length _ _ _ E); vm_compute; reflexivity).
+  assert (F : fully_listed f).
+  { apply fully_listed_length; [exact (proj1 (flatten_wf _ _ _ E))|]. rewrite L. vm_compute. discriminate. }
+  split; [exact L|]. split; [exact F|]. split.
+  - assert (O : option_map (fun f => map e_leaf (listing ex_env f)) (flatten ex_env ns) = Some (map e_leaf (listing ex_env ns)))
+      by (vm_compute; reflexivity).
+    rewrite E in O. cbn [option_map] in O. congruence.
+  - destruct (prog_flatten_again ex_env ex_prog true f E F) as (f' & H1 & H2 & _). exists f'. split; assumption.
+Qed.
+
+(* the same program as built (not unrolled): the repeated block is still one sub-circuit *)
+Example ex_plain_flatten :
+  let ns := prog_graph ex_env ex_prog false in
+  exists f, flatten ex_env ns = Some f /\ length f = 8%nat /\
+            Permutation (map e_leaf (listing ex_env f)) (map e_leaf (listing ex_env ns)).
+Proof.
+  intros ns. assert (S : is_some (flatten ex_env ns) = true) by (vm_compute; reflexivity).
+  apply is_some_inv in S as (f & E). exists f. split; [exact E|].
+  assert (L : length f = 8%nat) by (rewrite (flatten_length _ _ _ E); vm_compute; reflexivity).
+  split; [exact L|]. apply (prog_flatten_multiset_bound ex_env ex_prog false f E). vm_compute. discriminate.
+Qed.
+
+(* why `built` is a hypothesis of flatten_idem: a well-formed, fully listed flat graph with two un-related operations on the
+   same qubit (which add_to_graph never produces: the second would have been linked behind the first) is re-linked by
+   flatten, and the reported times change *)
+Definition ex_unbuilt : list node := [Node None LNone (OLeaf (ex_wait 0 0 8)); Node None LNone (OLeaf (ex_wait 1 0 16))].
+
+Example flatten_idem_needs_built :
+  wf_nodes ex_unbuilt /\ fully_listed ex_unbuilt /\ map n_op ex_unbuilt = map OLeaf [ex_wait 0 0 8; ex_wait 1 0 16] /\
+  map e_start (listing ex_env ex_unbuilt) = [0; 0] /\
+  option_map (fun f' => map e_start (listing ex_env f')) (flatten ex_env ex_unbuilt) = Some [0; 8].
+Proof.
+  assert (W : wf_nodes ex_unbuilt).
+  { split.
+    - intros [|[|i]] p H; simpl in H; try discriminate. destruct i; discriminate.
+    - intros [|[|i]] n H; simpl in H; inversion H; try reflexivity. destruct i; discriminate. }
+  split; [exact W|]. split; [apply fully_listed_length; [exact (proj1 W) | vm_compute; discriminate]|].
+  split; [reflexivity|]. split; vm_compute; reflexivity.
+Qed.
